@@ -84,11 +84,55 @@ def _trace_of(case, factory):
     return [list(e) for e in TRACE if e[0] in ("hook", "child")]
 
 
+def paren_in_context():
+    """BasicParenExp exists only to group: whether its parentheses may be left out depends on where it stands.  For every
+    parseable child class and every operator context the emitted text, read with BASIC09's precedence table, must group the
+    child as one operand.  (Text equality would be stricter than C01: `X ^ (- K)` and `X ^ - K` are the same BASIC09 tree.)"""
+    from tx.p_c01 import tree, B09_LEVELS
+    out = []
+
+    def plain(text):
+        return re.sub(re.escape(L) + r"(\w+)@\d+" + re.escape(R), lambda m: m.group(1).upper(), str.__str__(text))
+    kids = [(n, mk) for n, mk in children(False) if n in ("literal", "var", "unary-minus", "unary-plus", "numeric-not", "paren", "sum", "product", "numeric-and", "comparison")]
+    contexts = {
+        "X ^ (c)": lambda c: E.BasicBinaryExp(E.BasicVar("X"), "^", c), "(c) ^ X": lambda c: E.BasicBinaryExp(c, "^", E.BasicVar("X")),
+        "X * (c)": lambda c: E.BasicBinaryExp(E.BasicVar("X"), "*", c), "(c) * X": lambda c: E.BasicBinaryExp(c, "*", E.BasicVar("X")),
+        "X - (c)": lambda c: E.BasicBinaryExp(E.BasicVar("X"), "-", c), "X / (c)": lambda c: E.BasicBinaryExp(E.BasicVar("X"), "/", c),
+        "- (c)": lambda c: E.BasicOpExp("-", c), "NOT (c)": lambda c: E.BasicOpExp("NOT", c), "X AND (c)": lambda c: E.BasicBinaryExp(E.BasicVar("X"), "AND", c),
+        "X = (c)": lambda c: E.BasicBooleanBinaryExp(E.BasicVar("X"), "=", c),
+    }
+    shape = {"X ^ (c)": lambda t: ("^", "X", t), "(c) ^ X": lambda t: ("^", t, "X"), "X * (c)": lambda t: ("*", "X", t), "(c) * X": lambda t: ("*", t, "X"),
+             "X - (c)": lambda t: ("-", "X", t), "X / (c)": lambda t: ("/", "X", t), "- (c)": lambda t: ("NEG", t), "NOT (c)": lambda t: ("NOT", t),
+             "X AND (c)": lambda t: ("AND", "X", t), "X = (c)": lambda t: ("=", "X", t)}
+    for cname, ctx in contexts.items():
+        bad = []
+        for name, make in kids:
+            opaque.reset()
+            child = make()
+            try:
+                want = shape[cname](tree(plain(child.basic09_text(0)), B09_LEVELS))
+                got_text = plain(ctx(E.BasicParenExp(child)).basic09_text(0))
+                got = tree(got_text, B09_LEVELS)
+                if got != want:
+                    bad.append(dict(child=name, emitted=got_text, read_by_BASIC09_as=repr(got), intended=repr(want)))
+            except Exception as e:  # noqa
+                bad.append(dict(child=name, got="%s: %s" % (type(e).__name__, str(e)[:120])))
+        out.append(dict(id="T/subst/BasicParenExp in context %s" % cname, ok=not bad, expected="the parenthesised operand stays one operand under BASIC09's precedence (%d child classes)" % len(kids),
+                        actual=bad[:3] or "grouped", props=["C01"], family="subst"))
+    return out
+
+
 def obligations(prop):
     out = []
+    if prop == "C01":
+        out += paren_in_context()
     for case in C.CASES:
         if prop not in case.props:
             continue
+        if case.cls == "BasicParenExp" and case.text is not None:
+            t_only = False      # text of the grouping class is judged in context (above); its visit trace is still judged here
+        else:
+            t_only = True
         probe = _Factory(None, None)
         try:
             base_text = _text_of(case, probe) if case.text is not None else None
@@ -136,8 +180,9 @@ def obligations(prop):
                     except Exception as e:  # noqa
                         bad_v.append(dict(child=name, got="%s: %s" % (type(e).__name__, str(e)[:120])))
             oid = "subst/%s/%s/part %s" % (case.cls, case.label, tag)
-            out.append(dict(id="T/" + oid, ok=not bad_t, expected="the part's text, whatever its class (%d classes)" % n, actual=bad_t[:3] or "class-independent",
-                            props=list(case.props), family="subst"))
+            if t_only:
+                out.append(dict(id="T/" + oid, ok=not bad_t, expected="the part's text, whatever its class (%d classes)" % n, actual=bad_t[:3] or "class-independent",
+                                props=list(case.props), family="subst"))
             if base_trace is not None and ["child", tag] in base_trace:
                 out.append(dict(id="V/" + oid, ok=not bad_v, expected="the part's own trace in the part's place", actual=bad_v[:3] or "class-independent",
                                 props=list(case.props), family="subst"))
